@@ -117,14 +117,10 @@ class WriterEval:
             return None
         from . import sem
         import re as _re
-        for n in ast.walk(pi.node):
-            if not isinstance(n, ast.If):
-                continue
-            # the branch that raises runs when len(self.attr) differs from N - whatever the spelling of the test
-            for pol, branch in ((True, n.body), (False, n.orelse)):
-                if not any(isinstance(b, ast.Raise) for b in branch):
-                    continue
-                for a in sem.atoms(n.test, pol):
+        # every path to a `raise` of __post_init__ that tested len(self.attr) != N - whatever the spelling / nesting of the test
+        for r in [n for n in ast.walk(pi.node) if isinstance(n, ast.Raise)]:
+            for pc in sem.path_conditions(pi.node, r, kill_rebound=False):
+                for a in pc:
                     m_ = _re.fullmatch(r"!eq\((.+),(.+)\)", a)
                     if not m_:
                         continue
